@@ -3,6 +3,7 @@ package main
 // Native thunks: library objects kept as opaque Go values and called natively on concrete arguments.
 
 import (
+	"fmt"
 	"go/token"
 	"regexp"
 )
@@ -182,6 +183,27 @@ func init() {
 		return BV(64, uint64(int64(reOf(m, a[0]).SubexpIndex(m.concStr(a[1], "SubexpIndex")))))
 	})
 
+	// ---- hashes: uninterpreted on symbolic bytes, real code on concrete bytes ----
+	hashUF := func(name string) intrinsic {
+		return func(m *Machine, fr *frame, a []Value) Value {
+			bs := termsOf(a[0].([]Value))
+			allConst := true
+			for _, b := range bs {
+				if !b.IsConst() {
+					allConst = false
+					break
+				}
+			}
+			if allConst {
+				return fallThrough
+			}
+			m.stubs[fmt.Sprintf("UF:%s over %d symbolic bytes", name, len(bs))]++
+			return UF(fmt.Sprintf("%s/%d", name, len(bs)), SBV(64), bs...)
+		}
+	}
+	reg("github.com/go-faster/city.CH64", hashUF("city.CH64"))
+	reg("github.com/go-faster/city.Hash64", hashUF("city.Hash64"))
+
 	// ---- time ----
 	nowFn := func(m *Machine, fr *frame, a []Value) Value {
 		// nondecreasing nondeterministic instants (seconds since 1970 in [2^30, 2^32))
@@ -198,10 +220,52 @@ func init() {
 	}
 	reg("time.now", nowFn)
 	reg("time.runtimeNow", nowFn)
+	// (Time).Truncate(d) for d a whole number of seconds on a time without sub-second part and without
+	// monotonic reading: ext - ext mod d1 (exactly what div()+Add(-r) compute for ext >= 0); everything
+	// else falls through to the real code.
+	reg("(time.Time).Truncate", func(m *Machine, fr *frame, a []Value) Value {
+		t := a[0].(Struct)
+		d := a[1].(*Term)
+		wall, ext := t[0].(*Term), t[1].(*Term)
+		if !d.IsConst() || d.S() <= 0 || d.S()%1000000000 != 0 || !wall.IsConst() || wall.C != 0 {
+			return fallThrough
+		}
+		if ext.IsConst() {
+			return fallThrough
+		}
+		if m.decide(BVCmp(OpBVSlt, ext, BV(64, 0))) {
+			return fallThrough
+		}
+		m.stubs["model:time.Time.Truncate(whole seconds) = ext - ext mod d"]++
+		d1 := BV(64, uint64(d.S()/1000000000))
+		r := BVBin(OpBVSRem, ext, d1)
+		return Struct{wall, BVBin(OpBVSub, ext, r), t[2]}
+	})
 	reg("time.runtimeNano", func(m *Machine, fr *frame, a []Value) Value { return BV(64, 1) })
 	reg("time.Sleep", func(m *Machine, fr *frame, a []Value) Value { m.yield(); return nil })
 	reg("time.initLocal", func(m *Machine, fr *frame, a []Value) Value {
 		// Local = UTC unless the harness asked for a symbolic zone (vrt.SymbolicTZ)
+		if m.tzOff == nil {
+			return nil
+		}
+		tp := m.P.pkgs["time"]
+		cell := m.global(tp.Var("localLoc"))
+		loc := (*cell).(Struct) // name, zone, tx, extend, cacheStart, cacheEnd, cacheZone
+		var z Value = Struct{CStr("VZ"), m.tzOff, TFalse}
+		zs := []Value{z}
+		loc[0] = CStr("Local")
+		loc[1] = zs
+		loc[2] = []Value{Struct{BV(64, 1<<63), BV(8, 0), TFalse, TFalse}}
+		loc[4] = BV(64, 1<<63)
+		loc[5] = BV(64, (1<<63)-1)
+		loc[6] = &zs[0]
 		return nil
+	})
+	reg(vrtPath+".SymbolicTZ", func(m *Machine, fr *frame, a []Value) Value {
+		// process time zone: whole hours -12..+14 (replayed natively with TZ=Etc/GMT-+N)
+		in := m.path.NewInput("TZ-offset-hours", "tz", SBV(64))
+		m.path.assert(And(BVCmp(OpBVSle, BV(64, uint64(^uint64(11))), in.T), BVCmp(OpBVSle, in.T, BV(64, 14))))
+		m.tzOff = BVBin(OpBVMul, in.T, BV(64, 3600))
+		return in.T
 	})
 }
